@@ -10,6 +10,9 @@ abbrev Bytes := List Nat
 /-- `u8::is_ascii_whitespace` : SP, HT, LF, FF, CR (not NUL, not VT) -/
 def isWs (b : Nat) : Bool := b == 32 || b == 9 || b == 10 || b == 12 || b == 13
 
+/-- `is_pdf_whitespace` of filters.rs : NUL or `is_ascii_whitespace` -/
+def isPdfWs (b : Nat) : Bool := b == 0 || isWs b
+
 /-! ## ASCII85 (`decode_ascii85_with_limit`, filters.rs 649-742) -/
 
 /-- `85u32.pow(4 - i)` -/
@@ -29,7 +32,15 @@ def groupSum : Nat → Nat → List Nat → Outcome Nat
     let acc' ← addU U32 acc t
     groupSum (i + 1) acc' rest
 
-def groupValue (g : List Nat) : Outcome Nat := groupSum 0 0 g
+/-- `ascii85_group_value`: `try_fold(0u32, |v, &ch| v.checked_mul(85).and_then(|v| v.checked_add((ch - b'!') as u32)))`
+— a value above `u32::MAX` is a decode ERROR (before the repair: the unchecked positional sum
+`groupSum`, see `groupValueOld`).  Callers only pass characters `33..=117`. -/
+def groupHorner : Nat → List Nat → Outcome Nat
+  | v, [] => .ok v
+  | v, c :: rest =>
+    if v * 85 < U32 ∧ v * 85 + (c - 33) < U32 then groupHorner (v * 85 + (c - 33)) rest else .err
+
+def groupValue (g : List Nat) : Outcome Nat := groupHorner 0 g
 
 /-- `extend_bounded` / `push_bounded` : error when the result would exceed `max` -/
 def extendBounded (res bs : Bytes) (max : Nat) : Outcome Bytes :=
@@ -66,11 +77,10 @@ def a85Loop (max : Nat) : Bytes → Bytes → Bytes → Outcome Bytes
     else .err
 
 def a85Decode (data : Bytes) (max : Nat) : Outcome Bytes :=
-  let cs := data.filter (fun b => !isWs b)
-  -- optional `<~` prefix; a `<` followed by something else loses that next character
+  let cs := data.filter (fun b => !isPdfWs b)
+  -- optional `<~` prefix (peeked: a `<` followed by something else is an ordinary digit)
   match cs with
   | 60 :: 126 :: rest => a85Loop max rest [] []
-  | 60 :: _ :: rest => a85Loop max (60 :: rest) [] []
   | _ => a85Loop max cs [] []
 
 def MAX_DECOMPRESSED_SIZE : Nat := 256 * 1024 * 1024
@@ -88,13 +98,13 @@ deriving Repr, DecidableEq
 def ckMul (a b : Nat) : Outcome Nat := if a * b < USIZE then .ok (a * b) else .err
 def ckAdd (a b : Nat) : Outcome Nat := if a + b < USIZE then .ok (a + b) else .err
 
-/-- lines 1830-1868: the casts, `(bpc * colors).div_ceil(8)` (UNCHECKED product), the checked row
-size, the divisibility test -/
+/-- the casts, `bpc.checked_mul(colors)` then `div_ceil(8)` (before the repair an UNCHECKED product,
+see `predSizingOld`), the checked row size, the divisibility test -/
 def predSizing (columns bpc colors : Int) (len : Nat) : Outcome PredSizing := do
   let columns := asU USIZE columns
   let bpc := asU USIZE bpc
   let colors := asU USIZE colors
-  let prod ← mulU USIZE bpc colors
+  let prod ← ckMul bpc colors
   let bpp := (prod + 7) / 8
   let samples ← ckMul columns colors
   let bits ← ckMul samples bpc
@@ -157,7 +167,12 @@ def pngPredict (data : Bytes) (columns bpc colors : Int) : Outcome Bytes := do
   let s ← predSizing columns bpc colors data.length
   predRows data s (s.numRows + 1) 0 []
 
-/-- `apply_predictor(data, predictor as u32, params)`; absent keys take the defaults 1 / 8 / 1 -/
+/-- `/Predictor 2` (TIFF horizontal differencing, `apply_tiff_predictor`) is outside this model: the
+driver makes no prediction for it (C07/C08 model it) -/
+def predictorModelled (predictor : Int) : Bool := asU U32 predictor != 2
+
+/-- `apply_predictor(data, predictor as u32, params)` for the predictors other than 2; absent keys take
+the defaults 1 / 8 / 1 -/
 def applyPredictor (data : Bytes) (predictor : Int) (columns bpc colors : Option Int) : Outcome Bytes :=
   let p := asU U32 predictor
   if 10 ≤ p ∧ p ≤ 15 then pngPredict data (columns.getD 1) (bpc.getD 8) (colors.getD 1)
@@ -185,11 +200,12 @@ def readToEndLimited (max : Nat) : List Bytes → Bytes → Outcome Bytes
 
 /-! ## small arithmetic sites -/
 
-/-- operations/rotate.rs:172 `(parsed_page.rotation + angle.to_degrees()).rem_euclid(360)` with
-`rotation = /Rotate as i32` (page_tree.rs:569) -/
+/-- operations/rotate.rs `(parsed_page.rotation.rem_euclid(360) + angle.to_degrees()).rem_euclid(360)`
+with `rotation = /Rotate as i32` (page_tree.rs:569); the addition is still a checked `i32` addition,
+its left operand is now in `[0, 360)` -/
 def rotateCompose (rotate : Int) (angle : Int) : Outcome Int := do
   let r := asI U32 rotate
-  let s ← addI I32MIN I32MAX r angle
+  let s ← addI I32MIN I32MAX (r % 360) angle
   pure (s % 360)
 
 /-- text/cmap.rs:781 `code.iter().fold(0, |acc, &b| acc * 256 + b as usize)` -/
@@ -205,18 +221,18 @@ def calculateOffset (code start : Bytes) : Outcome Nat := do
   let s ← beFold 0 start
   pure (c - s)
 
-/-- page_labels/page_label.rs:136 `self.start + offset` (u32) -/
-def labelNumber (start offset : Nat) : Outcome Nat := addU U32 start offset
+/-- page_labels/page_label.rs `self.start.saturating_add(offset)` (u32) -/
+def labelNumber (start offset : Nat) : Outcome Nat := .ok (min (start + offset) (U32 - 1))
 
 /-- encryption/rc4.rs:45 `key.key[i % key.key.len()]` for `i = 0` -/
 def rc4FirstIndex (keyLen : Nat) : Outcome Nat := remU 0 keyLen
 
-/-- object_stream.rs:95 `self.first + offset` (u32), for the list of offsets in order; the
-objects at earlier offsets parse successfully (`okBefore`) -/
+/-- object_stream.rs `self.first.checked_add(*offset)` (u32; overflow → error), for the list of
+offsets in order; the objects at earlier offsets parse successfully -/
 def objStmOffsets (first : Int) : List Int → Outcome (List Nat)
   | [] => .ok []
   | o :: rest => do
-    let a ← addU U32 (asU U32 first) (asU U32 o)
+    let a ← (if asU U32 first + asU U32 o < U32 then .ok (asU U32 first + asU U32 o) else .err : Outcome Nat)
     let r ← objStmOffsets first rest
     pure (a :: r)
 
